@@ -222,6 +222,9 @@ def analyze(ctx, want):
     ob("C03.c", "signature-vector-only-grows", not muts, "vector mutations in build_transitions_to_partition_group: %s" % [M.short_name(m) for m in muts], bt.loc())
     its = [M.call_name(t) for bb, t in bt.calls(ADAPTERS)]
     brk = []
+    # every target whose group is looked up contributes its (class, group) entry: no iteration looks a group up and then skips the insert
+    skipped = [p for p in paths if p.calls(r"Minimizer::find_group$") and not p.calls(r"TransitionsToPartitionGroups::insert$") and p.end[0] != "panic"]
+    ob("C03.c", "no-looked-up-target-is-skipped", not skipped, "%d iteration path(s) look a target's group up without adding it to the signature%s" % (len(skipped), (": skipped when " + "; ".join("%s is %s" % (S.fstr(c)[:60], o) for c, o in skipped[0].conds[-2:])) if skipped else ""), bt.loc())
     ob("C03.c", "all-transitions-and-targets-enter-the-signature", body >= 1 and not its, "%d body paths; adapters %s" % (body, its), bt.loc())
     look = [e for p in paths for e in p.events if e[0] == "call" and re.search(r"BTreeMap::<.*>::get::", e[2])]
     ob("C03.c", "signature-of-the-given-state", bool(look) and S.fstr(ex.deref_val(paths[0], look[0][3][1])) in ("state_id",) or (bool(look) and "state_id" in S.fstr(look[0][3][1])), "transitions.get(%s)" % (S.fstr(look[0][3][1]) if look else None), bt.loc())
